@@ -77,7 +77,7 @@ class Delta:
                     f2 = self.new_at[q]
                     if f2 in opath and opath[f2] != q:
                         fl.add("under-renamed-dir")
-                    if f2 not in opath and o is not None:
+                    if o is not None and (f2 not in opath or old[opath[f2]][0] != "directory"):
                         fl.add("into-added-dir")
                     q = q.rpartition("/")[0]
             if c is not None:
@@ -93,6 +93,22 @@ class Delta:
     def of_old(self, path, flags=False):
         fid = self.old_at.get(path)
         return self._fmt(fid, flags) if fid is not None else None
+
+    def reuse_kinds(self, fid):
+        """Kinds involved where this entry takes over / vacates a path used by another entry in the other tree."""
+        opath = {v[3]: p for p, v in self.old.items()}
+        npath = {v[3]: p for p, v in self.new.items()}
+        kinds = set()
+        o, n = opath.get(fid), npath.get(fid)
+        if o is not None:
+            kinds.add(self.old[o][0])
+            if o in self.new and self.new[o][3] != fid:
+                kinds.add(self.new[o][0])
+        if n is not None:
+            kinds.add(self.new[n][0])
+            if n in self.old and self.old[n][3] != fid:
+                kinds.add(self.old[n][0])
+        return kinds
 
     def flags_new(self, path):
         return self.flags.get(self.new_at.get(path), set())
